@@ -164,7 +164,14 @@ def _post_replace(snap, result, exc, args, kwargs):
         src = [r[fi["cats"][cat][0].index(col)] for r in fi["cats"][cat][1]]
         distinct = list(dict.fromkeys(src))
         if len(distinct) > len(values):
-            rec.skip("replace.frame-preserved", "alphabet-overflow(outside statement)")
+            # fewer symbols than distinct values: no injective mapping exists, so refusing (raising) is fine and is
+            # not judged - but WHATEVER is returned must still be an injective mapping with the column as its image
+            if exc is not None or not (isinstance(result, tuple) and len(result) == 2 and isinstance(result[1], dict)):
+                rec.skip("replace.frame-preserved", "alphabet-overflow: refused")
+                return
+            out_, mp = result
+            inj = len(set(mp.values())) == len(mp)
+            rec.check("replace.overflow-result-still-injective", inj and len(mp) == len(distinct), lambda: det({"mapping": mp, "distinct-values": distinct[:10]}))
             return
     if exc is not None:
         rec.violation("replace.no-exception", det(repr(exc)), mechanism=f"crash:{type(exc).__name__}")
@@ -371,7 +378,7 @@ def run_case(case, rec):
             rec.undecided("copy.frame-preserved", "emitter/tokenizer self-check failed")
             return
         cn, items, rows, kind = rng.choice(cats)
-        op = rng.choice(["copy", "copy-new", "replace", "replace-short", "absent-cat", "absent-item"])
+        op = rng.choice(["copy", "copy-new", "replace", "replace-short", "replace-short-own", "replace-own", "absent-cat", "absent-item"])
         rec.mark_nontrivial(op not in ("absent-cat", "absent-item"))
         if op == "copy" and len(items) >= 2:
             a, b = rng.sample(items, 2)
@@ -382,6 +389,18 @@ def run_case(case, rec):
             _drive(rec, text, cn, "replace", rng.choice(items), "ABCDEFGHIJKLMNOPQRSTUVWXYZ0123456789")
         elif op == "replace-short":
             _drive(rec, text, cn, "replace", rng.choice(items), "XY")
+        elif op in ("replace-short-own", "replace-own"):
+            # the alphabet is made of the column's OWN one-character values (renames chain B->A, A->B ...), possibly
+            # fewer symbols than distinct values
+            it = rng.choice(items)
+            col = [r[items.index(it)] for r in rows]
+            own = [v for v in dict.fromkeys(col) if len(v) == 1 and v.isalnum()]
+            alpha = "".join(reversed(own)) or "BA"
+            if op == "replace-short-own":
+                alpha = alpha[: max(1, len(set(col)) - 1)]
+            else:
+                alpha = alpha + "ZYXWVUTSRQPONMLKJIHGFEDC0123456789"
+            _drive(rec, text, cn, "replace", it, alpha)
         elif op == "absent-cat":
             if rng.random() < 0.5:
                 _drive(rec, text, "no_such_category", "copy", items[0], "zz")
